@@ -10,7 +10,8 @@ RULE = ("every acyclic ADMG(n) n<=3 quick / n<=4 thorough under the label famili
 EXHAUSTIVE = {"quick": "all ADMG(n) n<=3 x {int,'U<i>'} labels, all disjoint X,Y,Z",
               "thorough": "all ADMG(n) n<=4 x {int,'U<i>'} labels, all disjoint X,Y,Z"}
 TRUSTED = ["networkx is_d_separator / is_directed_acyclic_graph used as a second implementation-side observer",
-           "deepcopy of attribute dicts observed through == only"]
+           "deepcopy of attribute dicts observed through == only; node attributes attached via add_node(**kw), G.nodes[n][k]=v, "
+           "add_nodes_from((n, dict)) and nx.set_node_attributes on implicitly created nodes (mixed per case), plus two graph attributes"]
 ASSUMPTIONS = ["default edge-type names", "input is a MixedEdgeGraph with a directed and a bidirected layer, acyclic directed layer",
                "generated latents are identified by structure (a node of the result that is not a caller node), never by name"]
 LEVEL_TEXT = ("All clauses about the formal graph are Coq theorems for ALL graphs and ALL naming functions that meet the freshness "
@@ -55,7 +56,7 @@ def gen_cases(tier, rng):
             qs = queries(g["V"])
             fams = [None, "U"] + (["Urev", "Ushift"] if g["B"] and n <= 3 else [])
             for fam in fams:
-                yield {"kind": "admg%d" % n, "g": g, "fam": fam, "qs": qs, "oracle": True}
+                yield {"kind": "admg%d" % n, "g": g, "fam": fam, "qs": qs, "oracle": True, "aseed": rng.randrange(64)}
     nr = 240 if tier == "quick" else 2400
     fams = [None, "U", "Urev", "Ushift", "tuple", "str"]
     for i in range(nr):
@@ -74,7 +75,8 @@ def gen_cases(tier, rng):
                 qs.append([X, Y, Z])
         else:
             qs = rng.sample(allq, min(30, len(allq)))
-        yield {"kind": "rand", "g": g, "fam": fams[i % len(fams)], "qs": qs, "oracle": n + len(g["B"]) <= 9}
+        yield {"kind": "rand", "g": g, "fam": fams[i % len(fams)], "qs": qs, "oracle": n + len(g["B"]) <= 9,
+               "aseed": rng.randrange(64)}
 
 
 def encode(case):
@@ -123,12 +125,34 @@ def build(case):
     g = case["g"]
     lab, inv = labels(case)
     M = pywhy_nx.MixedEdgeGraph(graphs=[nx.DiGraph(), nx.Graph()], edge_types=["directed", "bidirected"])
+    # node attributes are attached in four different ways (mixed per case by case["aseed"]): only mode 0 is mirrored
+    # into the per-layer graphs, so an implementation that reads attributes from a layer instead of G.nodes loses the rest
+    aseed = case.get("aseed", 0)
+    mode = {v: (aseed + 3 * v + (aseed >> 2) * (v + 1)) % 4 for v in g["V"]}
+    attrs = {v: {"w": [v, {"k": v}], "tag": "n%d" % v, "m": mode[v]} for v in g["V"]}
     for v in gr.ordered(case, g["V"], "V"):
-        M.add_node(lab(v), w=[v, {"k": v}], tag="n%d" % v)
+        if mode[v] == 0:
+            M.add_node(lab(v), **attrs[v])                      # keyword attributes of add_node
+        elif mode[v] == 1:
+            M.add_node(lab(v))
+            for k, x in attrs[v].items():
+                M.nodes[lab(v)][k] = x                          # item assignment on the node view
+        elif mode[v] == 2:
+            M.add_nodes_from([(lab(v), attrs[v])])              # per-node dict of add_nodes_from
+        # mode 3: created implicitly by add_edge (or below), annotated afterwards
     es = [("directed", a, b) for a, b in g["D"]] + [("bidirected", a, b) for a, b in g["B"]]
     for k, a, b in gr.ordered(case, es, "E"):
         M.add_edge(lab(a), lab(b), k)
-    M.graph["name"] = ["c10"]
+    late = {}
+    for v in gr.ordered(case, g["V"], "V"):
+        if mode[v] == 3:
+            if lab(v) not in M:
+                M.add_node(lab(v))
+            late[lab(v)] = attrs[v]
+    if late:
+        nx.set_node_attributes(M, late)                         # networkx helper, after the fact
+    M.graph["name"] = ["c10", {"seed": aseed}]
+    M.graph["note"] = "graph-level"
     return M, lab, inv
 
 
@@ -142,7 +166,8 @@ def run_impl(case):
     out = {"mutated": gr.snapshot(M) != before, "type": type(R).__name__}
     orig = {lab(v) for v in case["g"]["V"]}
     out["kept"] = all(x in R for x in orig)
-    out["attrs"] = all(dict(R.nodes[x]) == dict(M.nodes[x]) for x in orig if x in R)
+    out["attrs"] = all(dict(R.nodes[x]) == dict(M.nodes[x]) and len(R.nodes[x]) == 3 for x in orig if x in R)
+    out["gattrs"] = dict(R.graph) == dict(M.graph) and len(R.graph) == 2
     lat = [x for x in R.nodes if x not in orig]
     out["D"] = sorted([inv(a), inv(b)] for a, b in R.edges if a in orig and b in orig)
     bad = []
@@ -196,6 +221,8 @@ def compare(case, impl, model):
         return "latents"
     if not impl["attrs"]:
         return "node-attributes"
+    if not impl["gattrs"]:
+        return "graph-attributes"
     if not impl["dag"]:
         return "not-a-dag"
     if impl["dsep_result"] != model["canon"]:
